@@ -184,14 +184,20 @@ class Iter:
         s.base = base; s.pos = 0; s.back = len(base); s.stages = list(stages or []); s.count = 0; s.rev = False; s.peeked = None
     def clone(s):
         it = Iter(s.base, s.stages); it.pos, it.back, it.count, it.rev = s.pos, s.back, s.count, s.rev; return it
+    def raw(s, ex, fb):
+        """next raw element (index, value) of the underlying sequence, or None"""
+        if s.pos >= s.back: return None
+        if fb: s.back -= 1; i = s.back
+        else: i = s.pos; s.pos += 1
+        return i, s.base[i]
     def pull(s, ex, from_back=False):
         if s.peeked is not None and not from_back:
             v = s.peeked; s.peeked = None; return v
         fb = from_back != s.rev
-        while s.pos < s.back:
-            if fb: s.back -= 1; i = s.back
-            else: i = s.pos; s.pos += 1
-            v = s.base[i]; keep = True
+        while True:
+            rw = s.raw(ex, fb)
+            if rw is None: return NONE()
+            i, v = rw; keep = True
             for st in s.stages:
                 k = st[0]
                 if k == 'map': v = callf(ex, st[1], v)
@@ -203,7 +209,7 @@ class Iter:
                     if r.idx == 0: keep = False; break
                     v = r.fields[0]
                 elif k == 'enumerate':
-                    if any(x[0] in ('filter', 'filter_map') for x in s.stages[:s.stages.index(st)]):
+                    if i is None or any(x[0] in ('filter', 'filter_map') for x in s.stages[:s.stages.index(st)]):
                         if fb: raise Unsupported('rev over filtered enumerate')
                         v = Agg('tuple', 0, [st[1][0], v]); st[1][0] += 1
                     else: v = Agg('tuple', 0, [i, v])
@@ -213,7 +219,6 @@ class Iter:
                     h = [v]; callf(ex, st[1], Ref(h, 0))
                 else: raise Unsupported('iterator stage ' + k)
             if keep: return some(v)
-        return NONE()
     def drain(s, ex):
         out = []
         while True:
@@ -223,33 +228,24 @@ class Iter:
 
 class ChainIter(Iter):
     def __init__(s, a, b): Iter.__init__(s, []); s.a, s.b = a, b
-    def pull(s, ex, from_back=False):
-        order = (s.b, s.a) if (from_back != s.rev) else (s.a, s.b)
+    def raw(s, ex, fb):
+        order = (s.b, s.a) if fb else (s.a, s.b)
         for it in order:
-            r = it.pull(ex, from_back != s.rev) if it is not None else NONE()
-            if r.idx == 1:
-                v = r.fields[0]
-                for st in s.stages: v = apply_stage(ex, st, v)
-                return some(v)
-        return NONE()
-    def clone(s): c = ChainIter(s.a.clone(), s.b.clone()); c.stages = list(s.stages); return c
+            r = it.pull(ex, fb) if it is not None else NONE()
+            if r.idx == 1: return None, r.fields[0]
+        return None
+    def clone(s): c = ChainIter(s.a.clone(), s.b.clone()); c.stages = list(s.stages); c.rev = s.rev; return c
 
 class ZipIter(Iter):
     def __init__(s, a, b): Iter.__init__(s, []); s.a, s.b = a, b
-    def pull(s, ex, from_back=False):
-        if from_back != s.rev: raise Unsupported('rev over zip')
+    def raw(s, ex, fb):
+        if fb: raise Unsupported('rev over zip')
         x = s.a.pull(ex)
-        if x.idx == 0: return NONE()
+        if x.idx == 0: return None
         y = s.b.pull(ex)
-        if y.idx == 0: return NONE()
-        v = Agg('tuple', 0, [x.fields[0], y.fields[0]])
-        for st in s.stages: v = apply_stage(ex, st, v)
-        return some(v)
-
-def apply_stage(ex, st, v):
-    if st[0] == 'map': return callf(ex, st[1], v)
-    if st[0] == 'cloned': return clone_typed(ex, v, st[1]) if st[1] else deep_clone(ex, ex.deref(v))
-    raise Unsupported('stage %s on composite iterator' % st[0])
+        if y.idx == 0: return None
+        return None, Agg('tuple', 0, [x.fields[0], y.fields[0]])
+    def clone(s): c = ZipIter(s.a.clone(), s.b.clone()); c.stages = list(s.stages); return c
 
 def as_iter(ex, v, byref=None):
     """turn a value into an Iter (IntoIterator semantics)"""
